@@ -60,6 +60,53 @@ def range_tables(src):
     return out
 
 
+def ast_children(ast_src):
+    """variant -> names of the fields of `pub enum Expression` whose type contains an expression
+    (Box<Expression>, Option<Box<Expression>>, Vec<Expression>, Vec<CaseWhen>)"""
+    m = re.search(r"pub enum Expression \{(.*?)\n\}\n", ast_src, re.S)
+    out = {}
+    if not m:
+        return out
+    body = re.sub(r"//[^\n]*", "", m.group(1))
+    for vm in re.finditer(r"\n    (\w+)\s*(\{(.*?)\n    \}|\([^)]*\))?,", body, re.S):
+        name, rest, fields = vm.group(1), vm.group(2) or "", vm.group(3)
+        kids = []
+        if fields is not None:
+            for fname, fty in re.findall(r"(\w+)\s*:\s*([^,\n]+(?:<[^\n]*>)?)", fields):
+                if "Expression" in fty or "CaseWhen" in fty:
+                    kids.append(fname)
+        out[name] = kids
+    return out
+
+
+def cse_arms(src):
+    """arms of ExpressionHasher::is_deterministic: [(variants, kind, identifiers the body passes to
+    is_deterministic or iterates over)] with kind in {"false", "true", "rec"}"""
+    m = re.search(r"pub fn is_deterministic\(expr: &vibesql_ast::Expression\) -> bool \{\s*match expr \{(.*?)\n        \}\n    \}", src, re.S)
+    if not m:
+        return None
+    body = re.sub(r"//[^\n]*", "", m.group(1))
+    arms = []
+    # split at top-level arms: a pattern starts with `vibesql_ast::Expression::` at 12 spaces of indentation
+    parts = re.split(r"\n            (?=vibesql_ast::Expression::)", "\n" + body)
+    for part in parts:
+        if "=>" not in part:
+            continue
+        pat, rhs = part.split("=>", 1)
+        variants = re.findall(r"Expression::(\w+)", pat)
+        rhs_s = rhs.strip().rstrip(",").strip()
+        if re.fullmatch(r"false|\{\s*false\s*\}", rhs_s):
+            kind, used = "false", []
+        elif re.fullmatch(r"true", rhs_s):
+            kind, used = "true", []
+        else:
+            kind = "rec"
+            used = sorted(set(re.findall(r"is_deterministic\(&?(?:clause\.)?(\w+)\)", rhs) + re.findall(r"(\w+)(?:\.as_ref\(\))?\.(?:iter\(\)\.all|is_none_or)\(", rhs)
+                              + re.findall(r"if let Some\(\w+\) = (\w+)", rhs) + re.findall(r"for \w+ in &?(?:clause\.)?(\w+)", rhs)))
+        arms.append((variants, kind, used))
+    return arms
+
+
 def extract(read):
     src = read("crates/vibesql-executor/src/select/columnar/filter.rs")
     bl = blocks(src)
@@ -75,4 +122,15 @@ def extract(read):
     for kind, rows in rt:
         rrows.append('("%s", [%s])' % (kind, ", ".join('("%s", %s, %s, %s, %s)' % (o, "true" if a == "Some" else "false", "true" if b == "Some" else "false", c, d) for o, a, b, c, d in rows)))
     out.append("def c06IndexRangeTables : List (String × List (String × Bool × Bool × Bool × Bool)) := [%s]" % ", ".join(rrows))
+    ast = ast_children(read("crates/vibesql-ast/src/expression.rs"))
+    arms = cse_arms(read("crates/vibesql-executor/src/evaluator/expression_hash.rs"))
+    out.append("/-- evaluator/expression_hash.rs `is_deterministic` (which sub-expressions the per-evaluator CSE cache may keep)\nagainst vibesql-ast `enum Expression`: (variant, fields of the variant that hold expressions, kind of the arm\n(\"false\" / \"true\" / \"rec\"), identifiers the arm checks recursively) -/")
+    rows = []
+    if arms is not None:
+        for variants, kind, used in arms:
+            for v in variants:
+                rows.append('("%s", [%s], "%s", [%s])' % (v, ", ".join('"%s"' % k for k in ast.get(v, [])), kind, ", ".join('"%s"' % u for u in used)))
+    out.append("def c06CseArms : List (String × List String × String × List String) := [%s]" % ", ".join(rows))
+    out.append("/-- all variants of vibesql-ast `enum Expression` -/")
+    out.append("def c06AstVariants : List String := [%s]" % ", ".join('"%s"' % v for v in ast))
     return "\n".join(out) + "\n"
